@@ -576,3 +576,7 @@ _add(
     "C21",
     m("cached-catch-expression-unlinked", S, "            derive_expression(cached_expr, sexpr)\n", "", "C21.8"),
 )
+_add(
+    "C32",
+    m("oneshot-handler-keeps-stale-output", "redun/cli.py", "                BaseFile(output_path).remove()\n            raise error", "            raise error", "C32.8"),
+)
